@@ -3,7 +3,7 @@ from . import has_class
 CFG = {
     "harness": ["v1", "v2"],
     "functional": ["C06.universe", "C06.lookups", "C06.prelookups", "C06.wellformed"],
-    "required_classes": ["alias-of-unnamed-composite", "universe", "lookup-sequences", "identity-closure", "defined-array-of-composite", "lookups-before-load", "path-starts-like-anonymous-type", "composite-map-key"],
+    "required_classes": ["second-universe-from-one-parser", "alias-of-unnamed-composite", "universe", "lookup-sequences", "identity-closure", "defined-array-of-composite", "lookups-before-load", "path-starts-like-anonymous-type", "composite-map-key"],
     "rule": "the programs of C01 without generics; per program: (A) every object reachable from the universe's tables is the canonical map entry of its own name (shared builtin singletons under any of their keys), (B) none is an unresolved placeholder, (C) all go/types types that resolve (through the real tcNameToName/goNameToName hook) to one object are types.Identical, (D) 12 random Universe.Type lookups of existing, builtin and unknown names twice each return one object, compared with the model's get-or-create; builtin singletons shared across universes; non-trivial = input longer than 12 characters",
     "exhaustive": [],
     "modelled": "Universe.Type/Package.Type (get-or-create with builtin import), walkType's completeness short-circuits; pointer identity is object-name identity in the model (heap keyed by each object's own name, key map for the builtin aliases)",
